@@ -2262,6 +2262,9 @@ impl<'store> AnnotationStore {
                     for (set, data) in remove_data {
                         self.remove_data(set, data, true)?;
                     }
+                    for dataset in remove_datasets {
+                        self.remove(dataset)?;
+                    }
 
                     //just return an empty iterator
                     Ok(QueryIter {
